@@ -281,7 +281,7 @@ def run(R):
     # creation-time link
     init = ro.AsyncTask.methods.get("__init__")
     cr = [n for n in ast.walk(init.node) if isinstance(n, ast.Assign) and q.src(n.targets[0]) == "self.creator"]
-    R.check(len(cr) == 1 and q.src(cr[0].value).endswith("get_active_task()"), "C18.CHAIN", init.qualname, R.site(init),
+    R.check(len(cr) == 1 and (q.src(cr[0].value).endswith("get_active_task()") or q.src(cr[0].value).endswith(".active_task")), "C18.CHAIN", init.qualname, R.site(init),
             "a task's creator is the task that was active when it was created", "a task's creator is not get_active_task() at creation")
     rec = [c for c in q.calls(tb.node) if q.src(c) == "self.creator.traceback()"]
     if rec:
